@@ -30,7 +30,7 @@ def parse_info(b, r):
 
 def scenario(tier):
     def fn(b, sym):
-        files = {"R/s.txt": 1, "R/A/a1.txt": 2, "R/A/AA/aa1.txt": 3, "R/B/b1.txt": 4}
+        files = {"R/s.txt": 1, "R/A/a1.txt": 2, "R/A/AA/aa1.txt": 3, "R/B/b1.txt": 4, "R/A/AA_proxy/p.mov": 5, "R/A_notes.txt": 6}
         for f, c in files.items():
             b.mkfile(f, c)
         layout = sym.choose("layout", [[], ["R/A/AA"], ["R/A", "R/B"], ["R/A/AA", "R/A"]])
